@@ -155,4 +155,56 @@ theorem onlyPopper_run {t : Tid} : ∀ (as : List Actor) (s s' : St), (∀ a ∈
       exact ih s1 s' (fun b hb => hall b (List.mem_cons_of_mem _ hb)) (Reachable.step a hr hs)
         (onlyPopper_step a (hall a List.mem_cons_self) hp hs) e
 
+/-- (definitional: unfolds `doP0` / `doZz`; used by `C14_bounded_stall`)  A client blocked in `poll()` is enabled again as soon as a frame arrives, the
+stream ends, the connection is closed, or its deadline is reached; a client asleep on the condition as soon as it
+is notified or its deadline is reached. -/
+theorem stalled_waiter_released {s : St} (t : Tid) :
+    ((s.loc t).pc = .p0 → (s.chan ≠ [] ∨ s.eof = true ∨ s.closed = true ∨ expiredAt (s.loc t).dl s.now = true) →
+        enabled s t = true) ∧
+    ((s.loc t).pc = .zz → (t ∉ s.waiters ∨ expiredAt (s.loc t).wdl s.now = true) → enabled s t = true) := by
+  constructor
+  · intro hp hc
+    rcases hc with h | h | h | h
+    · exact p0_enabled hp (.inl h)
+    · exact p0_enabled hp (.inr (.inl h))
+    · exact p0_enabled hp (.inr (.inr h))
+    · by_cases hcl : s.closed = true
+      · exact p0_enabled hp (.inr (.inr hcl))
+      · cases hch : s.chan with
+        | cons f r => exact p0_enabled hp (.inl (by rw [hch]; simp))
+        | nil =>
+          by_cases he : s.eof = true
+          · exact p0_enabled hp (.inr (.inl he))
+          · simp [enabled, stepRun, hp, doP0, hcl, hch, he, h]
+  · intro hp hc
+    rcases hc with h | h
+    · simp [enabled, stepRun, hp, doZz, h]
+    · by_cases hw : t ∈ s.waiters
+      · simp [enabled, stepRun, hp, doZz, hw, h]
+      · simp [enabled, stepRun, hp, doZz, hw]
+
+
+/-- (true of the MODEL by construction) **dispatching a reply makes no request of its own.**  Between receiving a frame and publishing the result
+(`r0 … d5`: release, notify, `_dispatch`, `_seq_request_callback`, `AsyncResult.__call__`) a model thread sends
+nothing and takes no sequence number.  This is a fact about the MODEL's steps, true by construction.  Of the real
+code it holds for results that travel by value or are references to builtin classes (checked by trace acceptance,
+also with a DEBUG logger configured: a dispatcher that sends a request there — e.g. `repr()` of a proxy in a log
+line — is rejected, and the stall it causes carries the signature
+`C14:dispatcher-blocks-in-nested-request-before-publication`).  It does NOT hold for a reference to an instance of
+a user class: `_unbox` → `_netref_factory` makes a `sync_request(HANDLE_INSPECT)` on the dispatching thread,
+between the lock hand-off and the publication.  That nested call is represented as a fresh logical thread of the
+machine (the locks have no owner), so every theorem still applies to those runs; the stalls it widens are
+reproduced on the real code (witness `userclass-priority`) and fall under the first listed signature. -/
+theorem dispatcher_sends_no_request {s s' : St} (t : Tid)
+    (hp : (s.loc t).pc.holding = true ∨ (s.loc t).pc.completing = true) (hs : step s (.run t) = some s') :
+    s'.outstanding = s.outstanding ∧ s'.seqCounter = s.seqCounter ∧ s'.issued = s.issued := by
+  simp only [step, stepRun] at hs
+  generalize hpc : (s.loc t).pc = pc at hs hp
+  cases pc <;> simp [PC.holding, PC.completing] at hp <;>
+    simp only [doR0, doN0, doN1, doN2, doD0, doD1, doD2, doD3, doD4, doD5, Option.some.injEq] at hs <;>
+    (repeat' split at hs) <;>
+    (first | (subst hs; simp [setLoc, setCell, markDispatched])
+           | (cases hs; first | done | simp [setLoc, setCell, markDispatched]))
+
+
 end Rpyc.Conc.Serve
